@@ -826,6 +826,9 @@ func (c *VirtualTable) Begin(ctx context.Context) error {
 
 func (c *VirtualTable) Commit(ctx context.Context) error {
 	dbg("COMMIT\n")
+	// A version is as old as its commit, not as the connection that made
+	// it: vacuum compares this time with its cutoff.
+	c.Tree.Root.SetCreated(time.Now())
 	_, err := c.Tree.Root.Commit(ctx)
 	if err != nil {
 		return fmt.Errorf("commit tree: %w", err)
@@ -992,6 +995,7 @@ func Vacuum(ctx context.Context, tableName string, beforeTime time.Time) error {
 	if err != nil {
 		return fmt.Errorf("s3db commit tombstones: %w", err)
 	}
+	db.SetCreated(time.Now())
 	_, err = db.Commit(ctx)
 	if err != nil {
 		return fmt.Errorf("s3db commit tombstones: %w", err)
